@@ -115,7 +115,7 @@ def gen_parse(rng):
     op = ["parse", t["name"], gen_dt(rng), None, 0,
           rng.choice(["module", "module", "p0", "p1", "info", "pinfo"]),
           rng.choice(["str", "str", "str", "bytes", "stringio",
-                      "shortstream"]),
+                      "shortstream", "stringio_offset"]),
           rng.choice(["explicit", "explicit", "clock"])]
     if t["has_time"] and rng.random() < 0.6:
         op[3] = rng.choice(R.OFFSET_FORMS)
@@ -248,7 +248,8 @@ def offset_allowed(t, text, form):
     word; never after a year (ctime)."""
     if not t["has_time"] or t["precision"] == "h":
         return False
-    if t["name"].startswith("ctime") or t["name"] == "time_first_iso":
+    if t["name"].startswith("ctime") or t["name"] in (
+            "time_first_iso", "hms_words_compact_date", "hm_colon_iso_date"):
         return False        # the text ends in a year / a date, not a time
     if text[-1].isdigit():
         return True
@@ -287,6 +288,11 @@ def do_parse(env, op, text, flags):
         x = text.encode("ascii")
     elif inform == "stringio":
         x = io.StringIO(text)
+    elif inform == "stringio_offset":
+        # a stream the caller has already read from: parsing starts at the
+        # stream's position, not at the beginning of its buffer
+        x = io.StringIO("Date: " + text)
+        x.read(6)
     elif inform == "shortstream":
         # a text stream that delivers legal short reads
         from dsim.simfs import ShortTextStream
